@@ -1090,3 +1090,68 @@ func lemmaSynonymCodeRoundTrip(synonymID, docID uint32) {
 //@ tags [C03,C04]
 //@ assert (*Segment).loadDvReader#1 : $fieldID == $k [C03,C04]
 //@ end
+
+// ---- C03: doc values ----
+
+//@ func ReadDocValueBoundary returns (start, end)
+//@ tags [C03,C09]
+//@ requires 0 <= chunk && chunk < len(metaHeaders)
+//@ modifies nothing
+//@ ensures end == metaHeaders[chunk].DocDvOffset
+//@ ensures chunk == 0 ==> start == 0
+//@ ensures chunk > 0 ==> start == metaHeaders[chunk-1].DocDvOffset
+//@ end
+
+// chunk header sorted strictly by document number (what chunkedContentCoder.Add emits for ascending doc numbers)
+//@ pred metaSorted(h) = forall a int, b int :: 0 <= a && a < b && b < len(h) ==> h[a].DocNum < h[b].DocNum
+
+//@ func (*docValueReader).getDocValueLocs returns (start, end)
+//@ tags [C03]
+//@ requires di != nil
+//@ wf requires metaSorted(di.curChunkHeader)
+//@ modifies nothing
+//@ ensures (forall j int :: 0 <= j && j < len(di.curChunkHeader) ==> di.curChunkHeader[j].DocNum != docNum) ==> start == 0xffffffffffffffff && end == 0xffffffffffffffff
+//@ ensures forall j int :: 0 <= j && j < len(di.curChunkHeader) && di.curChunkHeader[j].DocNum == docNum ==> end == di.curChunkHeader[j].DocDvOffset && (j == 0 ==> start == 0) && (j > 0 ==> start == di.curChunkHeader[j-1].DocDvOffset)
+//@ end
+
+//@ func (*docValueReader).cloneInto returns (r)
+//@ tags [C03,C11]
+//@ requires di != nil
+//@ wf requires rv != di
+//@ ensures r != nil && (rv != nil ==> r == rv) && (rv == nil ==> fresh(r))
+//@ ensures r.curChunkNum == 0xffffffffffffffff && r.chunkOffsets == di.chunkOffsets && r.dvDataLoc == di.dvDataLoc && r.field == di.field
+//@ ensures len(r.curChunkHeader) == 0 && r.curChunkData == nil && len(r.uncompressed) == 0
+//@ ensures di.curChunkNum == old(di.curChunkNum) && di.chunkOffsets == old(di.chunkOffsets) && di.dvDataLoc == old(di.dvDataLoc) && di.curChunkHeader == old(di.curChunkHeader) && di.curChunkData == old(di.curChunkData) && di.uncompressed == old(di.uncompressed) [C11]
+//@ end
+
+//@ func (*docValueReader).curChunkNumber returns (n)
+//@ tags [C03]
+//@ requires di != nil
+//@ modifies nothing
+//@ ensures n == di.curChunkNum
+//@ end
+
+//@ func (*docValueReader).loadDvChunk returns (err)
+//@ thin
+//@ tags [C03]
+//@ requires di != nil && s != nil
+//@ wf requires chunkNumber < uint64(len(di.chunkOffsets))
+//@ ensures err == nil ==> di.curChunkNum == chunkNumber && len(di.uncompressed) == 0 [C03]
+//@ ensures di.chunkOffsets == old(di.chunkOffsets) && di.dvDataLoc == old(di.dvDataLoc) && di.field == old(di.field)
+//@ modifies docValueReader.*[di], alloc, new MetaData.*, elems(*)
+//@ end
+
+//@ func (*SegmentBase).VisitDocValues returns (dvsOut, err)
+//@ thin
+//@ tags [C03]
+//@ requires s != nil
+//@ assert (*docValueReader).visitDocValues#1 : $di.curChunkNum == docInChunk && $docNum == localDocNum [C03]
+//@ assert getChunkSize#1 : $chunkMode == LegacyChunkMode [C03,C09]
+//@ end
+
+//@ func (*SegmentBase).VisitableDocValueFields returns (names, err)
+//@ tags [C03]
+//@ requires s != nil
+//@ modifies nothing
+//@ ensures err == nil && names == s.fieldDvNames
+//@ end
